@@ -191,30 +191,7 @@ func c13(p *an.Prog, r *an.R, tier string) {
 		g := an.NewG(info, fd.Decl.Body)
 		r.Fn("index.(*Builder).Finish")
 		isRename := g.HasCallTo(rename)
-		// the loop over changedOrRemovedFiles storing into FileTombstones
-		stores := 0
-		ast.Inspect(fd.Decl.Body, func(n ast.Node) bool {
-			rs, ok := n.(*ast.RangeStmt)
-			if !ok {
-				return true
-			}
-			se, ok := ast.Unparen(rs.X).(*ast.SelectorExpr)
-			if !ok || info.Selections[se] == nil || info.Selections[se].Obj() != corf {
-				return true
-			}
-			ast.Inspect(rs.Body, func(m ast.Node) bool {
-				if as, ok := m.(*ast.AssignStmt); ok {
-					if ix, ok := ast.Unparen(as.Lhs[0]).(*ast.IndexExpr); ok {
-						if s2, ok := ast.Unparen(ix.X).(*ast.SelectorExpr); ok && info.Selections[s2] != nil && info.Selections[s2].Obj() == ft && an.UsesObj(info, ix.Index, info.ObjectOf(rs.Value.(*ast.Ident))) {
-							stores++
-						}
-					}
-				}
-				return true
-			})
-			return true
-		})
-		r.Check(stores == 1, "C13.R3", "index.(*Builder).Finish/delta/changed-paths-become-file-tombstones", fd.Decl.Pos(), "every changed-or-removed path is recorded in the older shard's FileTombstones", "Finish does not record every changedOrRemovedFiles entry in the older shards' FileTombstones: the old copy of a changed or deleted file stays visible next to (or instead of) the new one")
+		c13Tombstones(p, r, fd, ft, corf)
 		// JsonMarshalRepoMetaTemp result goes into artifactPaths, before any rename
 		for _, l := range g.Locs(func(nd ast.Node) bool { return len(an.CallsTo(info, nd, false, jm)) > 0 }) {
 			as, ok := g.Node(l).(*ast.AssignStmt)
@@ -277,5 +254,205 @@ func c13(p *an.Prog, r *an.R, tier string) {
 			}
 			r.Check(ok, "C13.R3", "index.(*Builder).Finish/delta/rechecks/"+chk.name, fd.Decl.Pos(), "a mismatch of "+chk.name+" aborts the delta build with an error", "Finish no longer aborts a delta build whose "+chk.name+" differ from the older shard's")
 		}
+	}
+}
+
+// c13Tombstones: after Finish's delta branch the older shard's FileTombstones
+// holds its previous entries and every changed-or-removed path. Accepted
+// shapes: (a) inline - a range over changedOrRemovedFiles storing each path
+// into X.FileTombstones, and every whole-map assignment to X.FileTombstones
+// guarded by X.FileTombstones == nil; (b) a helper h(existing, paths) whose
+// result is assigned to X.FileTombstones - then every return of h must return a
+// map that received every element of paths and either is `existing` or received
+// all of existing; returning nil / a fresh map is accepted only under
+// len(existing) == 0 (or existing == nil).
+func c13Tombstones(p *an.Prog, r *an.R, fd *an.DeclInfo, ft, corf *types.Var) {
+	info := fd.Pkg.TypesInfo
+	g := an.NewG(info, fd.Decl.Body)
+	key := "index.(*Builder).Finish/delta/changed-paths-become-file-tombstones"
+	isFT := func(e ast.Expr) bool {
+		se, ok := ast.Unparen(e).(*ast.SelectorExpr)
+		return ok && info.Selections[se] != nil && info.Selections[se].Obj() == ft
+	}
+	isCorf := func(e ast.Expr) bool {
+		se, ok := ast.Unparen(e).(*ast.SelectorExpr)
+		return ok && info.Selections[se] != nil && info.Selections[se].Obj() == corf
+	}
+	inline := 0
+	ast.Inspect(fd.Decl.Body, func(n ast.Node) bool {
+		rs, ok := n.(*ast.RangeStmt)
+		if !ok || !isCorf(rs.X) || rs.Value == nil {
+			return true
+		}
+		ast.Inspect(rs.Body, func(m ast.Node) bool {
+			if as, ok := m.(*ast.AssignStmt); ok {
+				if ix, ok := ast.Unparen(as.Lhs[0]).(*ast.IndexExpr); ok && isFT(ix.X) && an.UsesObj(info, ix.Index, info.ObjectOf(rs.Value.(*ast.Ident))) {
+					inline++
+				}
+			}
+			return true
+		})
+		return true
+	})
+	viaHelper := 0
+	for _, l := range g.Locs(func(ast.Node) bool { return true }) {
+		as, ok := g.Node(l).(*ast.AssignStmt)
+		if !ok {
+			continue
+		}
+		for k, lhs := range as.Lhs {
+			if !isFT(lhs) || len(as.Rhs) != len(as.Lhs) {
+				continue
+			}
+			rhs := ast.Unparen(as.Rhs[k])
+			// whole-map assignment
+			if c, ok := rhs.(*ast.CallExpr); ok {
+				if h := an.Callee(info, c); h != nil && an.InModule(h.Pkg()) {
+					// helper form: which argument is the existing map, which the paths
+					ei, pi := -1, -1
+					for i, a := range c.Args {
+						if isFT(a) {
+							ei = i
+						}
+						if isCorf(a) {
+							pi = i
+						}
+					}
+					if ei >= 0 && pi >= 0 {
+						viaHelper++
+						c13MergeHelper(p, r, h, ei, pi)
+						continue
+					}
+				}
+			}
+			// anything else replaces the map: only when it was nil
+			guarded := g.GuardedBy(l, func(cond ast.Expr, truth bool) bool {
+				be, ok := ast.Unparen(cond).(*ast.BinaryExpr)
+				if !ok {
+					return false
+				}
+				if (isFT(be.X) && info.Types[be.Y].IsNil()) || (isFT(be.Y) && info.Types[be.X].IsNil()) {
+					return (be.Op == token.EQL && truth) || (be.Op == token.NEQ && !truth)
+				}
+				return false
+			}, nil)
+			r.Check(guarded, "C13.R3", "index.(*Builder).Finish/delta/file-tombstones-replaced-only-when-nil", as.Pos(), "the tombstone set is allocated only when absent", "Finish replaces an older shard's FileTombstones without it being nil: tombstones recorded by earlier delta builds are dropped and the files they hid resurface")
+		}
+	}
+	r.Check(inline+viaHelper >= 1, "C13.R3", key, fd.Decl.Pos(), "every changed-or-removed path is recorded in the older shard's FileTombstones", "Finish does not record every changedOrRemovedFiles entry in the older shards' FileTombstones: the old copy of a changed or deleted file stays visible next to (or instead of) the new one")
+}
+
+func c13MergeHelper(p *an.Prog, r *an.R, h *types.Func, ei, pi int) {
+	d := p.Decl(h)
+	name := an.FuncName(h)
+	if d == nil || d.Decl.Body == nil {
+		r.Und("C13.R3", name+"/merge-helper", token.NoPos, "no source for the tombstone merge helper")
+		return
+	}
+	r.Fn(name)
+	info := d.Pkg.TypesInfo
+	g := an.NewG(info, d.Decl.Body)
+	existing, paths := an.Param(info, d.Decl, ei), an.Param(info, d.Decl, pi)
+	// stores of every path into map M: a range over paths with M[v] = ...
+	pathLoopInto := func(m types.Object) func(an.Loc) bool {
+		var loops []*ast.RangeStmt
+		ast.Inspect(d.Decl.Body, func(n ast.Node) bool {
+			rs, ok := n.(*ast.RangeStmt)
+			if !ok || !isIdentOf(info, rs.X, paths) || rs.Value == nil {
+				return true
+			}
+			ast.Inspect(rs.Body, func(k ast.Node) bool {
+				if as, ok := k.(*ast.AssignStmt); ok {
+					if ix, ok := ast.Unparen(as.Lhs[0]).(*ast.IndexExpr); ok && isIdentOf(info, ix.X, m) && isIdentOf(info, ix.Index, info.ObjectOf(rs.Value.(*ast.Ident))) {
+						loops = append(loops, rs)
+					}
+				}
+				return true
+			})
+			return true
+		})
+		return func(l an.Loc) bool {
+			for _, rs := range loops {
+				if g.Node(l) == ast.Node(rs.X) {
+					return true
+				}
+			}
+			return false
+		}
+	}
+	copiesExisting := func(m types.Object) func(an.Loc) bool {
+		return func(l an.Loc) bool {
+			hit := false
+			ast.Inspect(g.Node(l), func(n ast.Node) bool {
+				c, ok := n.(*ast.CallExpr)
+				if ok && len(c.Args) == 2 {
+					if f := an.Callee(info, c); f != nil && f.Pkg() != nil && f.Pkg().Path() == "maps" && f.Name() == "Copy" && isIdentOf(info, c.Args[0], m) && isIdentOf(info, c.Args[1], existing) {
+						hit = true
+					}
+				}
+				return true
+			})
+			if hit {
+				return true
+			}
+			// range existing { m[k] = v }
+			ok := false
+			ast.Inspect(d.Decl.Body, func(n ast.Node) bool {
+				rs, isR := n.(*ast.RangeStmt)
+				if !isR || !isIdentOf(info, rs.X, existing) || g.Node(l) != ast.Node(rs.X) || rs.Key == nil {
+					return true
+				}
+				ast.Inspect(rs.Body, func(k ast.Node) bool {
+					if as, isA := k.(*ast.AssignStmt); isA {
+						if ix, isI := ast.Unparen(as.Lhs[0]).(*ast.IndexExpr); isI && isIdentOf(info, ix.X, m) && isIdentOf(info, ix.Index, info.ObjectOf(rs.Key.(*ast.Ident))) {
+							ok = true
+						}
+					}
+					return true
+				})
+				return true
+			})
+			return ok
+		}
+	}
+	emptyFact := func(v types.Object) func(cond ast.Expr, truth bool) bool {
+		return func(cond ast.Expr, truth bool) bool {
+			be, ok := ast.Unparen(cond).(*ast.BinaryExpr)
+			if !ok {
+				return false
+			}
+			if c, ok := ast.Unparen(be.X).(*ast.CallExpr); ok && an.IsBuiltin(info, c, "len") && isIdentOf(info, c.Args[0], v) {
+				if tv := info.Types[be.Y]; tv.Value != nil && tv.Value.String() == "0" {
+					return (be.Op == token.EQL && truth) || (be.Op == token.NEQ && !truth) || (be.Op == token.GTR && !truth)
+				}
+			}
+			if isIdentOf(info, be.X, v) && info.Types[be.Y].IsNil() {
+				return (be.Op == token.EQL && truth) || (be.Op == token.NEQ && !truth)
+			}
+			return false
+		}
+	}
+	n := 0
+	for _, l := range g.Locs(func(nd ast.Node) bool { _, ok := nd.(*ast.ReturnStmt); return ok }) {
+		rs := g.Node(l).(*ast.ReturnStmt)
+		if len(rs.Results) != 1 {
+			continue
+		}
+		n++
+		key := name + "/return#" + itoa(n)
+		res := ast.Unparen(rs.Results[0])
+		pathsEmpty := g.GuardedBy(l, emptyFact(paths), nil)
+		existingEmpty := g.GuardedBy(l, emptyFact(existing), nil)
+		keepsOld, addsNew := false, false
+		if id, ok := res.(*ast.Ident); ok && !info.Types[res].IsNil() {
+			m := info.ObjectOf(id)
+			passes := func(pred func(an.Loc) bool) bool {
+				return !g.Reach(g.Entry(), false, &an.Search{Target: func(k an.Loc) bool { return k == l }, Cut: pred})
+			}
+			keepsOld = m == types.Object(existing) || passes(copiesExisting(m))
+			addsNew = passes(pathLoopInto(m))
+		}
+		r.Check(keepsOld || existingEmpty, "C13.R3", key+"/keeps-existing-tombstones", rs.Pos(), "the result still holds the shard's earlier tombstones", "the tombstone merge returns `"+types.ExprString(res)+"` on a path where the existing set may be non-empty and was not carried over: file tombstones recorded by earlier delta builds are dropped and the files they hid resurface")
+		r.Check(addsNew || pathsEmpty, "C13.R3", key+"/adds-every-changed-path", rs.Pos(), "the result holds every changed-or-removed path", "the tombstone merge returns `"+types.ExprString(res)+"` on a path where not every changed-or-removed path was added to it")
 	}
 }
